@@ -261,12 +261,14 @@ def keys():
     """Secret keys in [1, n-1]: boundary-biased scalars and uniformly spread 32-byte values."""
     return st.one_of(
         gen.scalars_valid(),
+        gen.scalars_valid(),
         st.binary(min_size=32, max_size=32).map(lambda b: int.from_bytes(b, "big") % (N - 1) + 1),
+        gen.lookalike_keys32().map(lambda b: int.from_bytes(b, "big")),  # keys whose 32 bytes read as text
     )
 
 
 def auxes():
-    return st.one_of(st.just(bytes(32)), st.just(b"\xff" * 32), st.binary(min_size=32, max_size=32))
+    return st.one_of(st.just(bytes(32)), st.just(b"\xff" * 32), st.binary(min_size=32, max_size=32), st.binary(min_size=32, max_size=32), gen.lookalike_keys32())
 
 
 @st.composite
